@@ -7,6 +7,7 @@ import (
 	"go/token"
 	"hash/fnv"
 	"go/types"
+	"sort"
 	"strings"
 
 	"golang.org/x/tools/go/ssa"
@@ -853,6 +854,25 @@ func (ft *FuncTr) ret(st *State, at *Term, x *ssa.Return) error {
 		}
 		ft.assert(at, t, fmt.Sprintf("ensures[%s]", clauseID(en, i)), "", en.Text, x.Pos())
 	}
+	for i, rc := range ft.c.ReadonlyWhen {
+		cond, err := env.trBool(rc.E)
+		if err != nil {
+			return fmt.Errorf("readonly[%d] (%s:%d): %v", i+1, rc.File, rc.Line, err)
+		}
+		initNext := ft.h.nextID(ft.init)
+		for _, n := range sortedKeysT(st.heap) {
+			cur := st.heap[n]
+			if cur.Sort.K != SPtr || strings.HasPrefix(n, "G_") {
+				continue // ghost integers are not memory
+			}
+			was := ft.h.arr(ft.init, n, cur.Sort)
+			if was.S == cur.S {
+				continue
+			}
+			ft.assert(at, Implies(cond, frameCond(&ArrMod{sort: cur.Sort}, was, cur, initNext)), fmt.Sprintf("readonly[%d]", i+1), n,
+				"when "+rc.Text+": no cell of an object allocated before the call was written", x.Pos())
+		}
+	}
 	if ft.c.Denotes != nil {
 		dv := env.tr(ft.c.Denotes)
 		var argT []*Term
@@ -990,4 +1010,13 @@ func (ft *FuncTr) valueArrayCell(a *ssa.Alloc) bool {
 		}
 	}
 	return stores == 1
+}
+
+func sortedKeysT(m map[string]*Term) []string {
+	out := make([]string, 0, len(m))
+	for k := range m {
+		out = append(out, k)
+	}
+	sort.Strings(out)
+	return out
 }
